@@ -534,12 +534,35 @@ pub fn subscript_formula(
 #[cfg(feature = "subscript_formula")]
 pub fn subscript_formula_ix(
     sbscrpt: &Subscript,
+    val: &Value,
+    axis: Option<usize>,
     env: Option<&Environment>,
     p: &Interpreter,
 ) -> MResult<Value> {
     match sbscrpt {
         Subscript::Formula(fctr) => {
             let result = factor(fctr, env, p)?;
+            // A logical mask lines up with the elements it selects from, so it has to be as long
+            // as the dimension of the matrix it indexes (every element when there is no axis).
+            if let (ValueKind::Matrix(mask_kind, mask_dims), ValueKind::Matrix(_, dims)) =
+                (result.deref_kind(), val.deref_kind())
+            {
+                let mask_len: usize = mask_dims.iter().product();
+                let len: usize = match axis {
+                    Some(axis) => dims[axis],
+                    None => dims.iter().product(),
+                };
+                if *mask_kind == ValueKind::Bool && mask_len != len {
+                    return Err(MechError::new(
+                        DimensionMismatch {
+                            dims: vec![mask_len, len],
+                        },
+                        None,
+                    )
+                    .with_compiler_loc()
+                    .with_tokens(fctr.tokens()));
+                }
+            }
             result.as_index()
         }
         _ => unreachable!(),
@@ -679,7 +702,7 @@ pub fn subscript(
             match &subs[..] {
                 #[cfg(feature = "subscript_formula")]
                 [Subscript::Formula(ix)] => {
-                    let result = subscript_formula_ix(&subs[0], env, p)?;
+                    let result = subscript_formula_ix(&subs[0], val, None, env, p)?;
                     let shape = result.shape();
                     fxn_input.push(result);
                     match shape[..] {
@@ -706,10 +729,10 @@ pub fn subscript(
                 [Subscript::All, Subscript::All] => todo!(),
                 #[cfg(feature = "subscript_formula")]
                 [Subscript::Formula(ix1), Subscript::Formula(ix2)] => {
-                    let result = subscript_formula_ix(&subs[0], env, p)?;
+                    let result = subscript_formula_ix(&subs[0], val, Some(0), env, p)?;
                     let shape1 = result.shape();
                     fxn_input.push(result);
-                    let result = subscript_formula_ix(&subs[1], env, p)?;
+                    let result = subscript_formula_ix(&subs[1], val, Some(1), env, p)?;
                     let shape2 = result.shape();
                     fxn_input.push(result);
                     match ((shape1[0], shape1[1]), (shape2[0], shape2[1])) {
@@ -745,7 +768,7 @@ pub fn subscript(
                 #[cfg(all(feature = "subscript_range", feature = "subscript_formula"))]
                 [Subscript::All, Subscript::Formula(ix2)] => {
                     fxn_input.push(Value::IndexAll);
-                    let result = subscript_formula_ix(&subs[1], env, p)?;
+                    let result = subscript_formula_ix(&subs[1], val, Some(1), env, p)?;
                     let shape = result.shape();
                     fxn_input.push(result);
                     match &shape[..] {
@@ -766,7 +789,7 @@ pub fn subscript(
                 }
                 #[cfg(all(feature = "subscript_range", feature = "subscript_formula"))]
                 [Subscript::Formula(ix1), Subscript::All] => {
-                    let result = subscript_formula_ix(&subs[0], env, p)?;
+                    let result = subscript_formula_ix(&subs[0], val, Some(0), env, p)?;
                     let shape = result.shape();
                     fxn_input.push(result);
                     fxn_input.push(Value::IndexAll);
@@ -790,7 +813,7 @@ pub fn subscript(
                 [Subscript::Range(ix1), Subscript::Formula(ix2)] => {
                     let result = subscript_range(&subs[0], env, p)?;
                     fxn_input.push(result);
-                    let result = subscript_formula_ix(&subs[1], env, p)?;
+                    let result = subscript_formula_ix(&subs[1], val, Some(1), env, p)?;
                     let shape = result.shape();
                     fxn_input.push(result);
                     match &shape[..] {
@@ -811,7 +834,7 @@ pub fn subscript(
                 }
                 #[cfg(all(feature = "subscript_range", feature = "subscript_formula"))]
                 [Subscript::Formula(ix1), Subscript::Range(ix2)] => {
-                    let result = subscript_formula_ix(&subs[0], env, p)?;
+                    let result = subscript_formula_ix(&subs[0], val, Some(0), env, p)?;
                     let shape = result.shape();
                     fxn_input.push(result);
                     let result = subscript_range(&subs[1], env, p)?;
